@@ -33,7 +33,7 @@ Quantum == 50
 
 \* operand-stack effect of the opcodes with a fixed effect
 Plus1  == {"CopyPush", "CloningPush", "Duplicate", "GetVarImm", "GetGlobImm", "IterAdvance"}
-Zero0  == {"Nop", "Clone", "Neg", "Some", "Not", "Cast", "Member", "Unwrap", "LoadSingleton", "IntoIter", "Label",
+Zero0  == {"Nop", "Clone", "Detach", "Neg", "Some", "Not", "Cast", "Member", "Unwrap", "LoadSingleton", "IntoIter", "Label",
            "SetTryLabel", "PopTryLabel", "AddMempointer", "Jump", "Eq_PopOnce", "Import", "Call_Imm", "Return"}
 Minus1 == {"Drop", "SetVarImm", "SetGlobImm", "Add", "Sub", "Mul", "Pow", "Div", "Rem", "Eq", "Lt", "Gt", "Le", "Ge", "Shl", "Shr",
            "BitOr", "BitAnd", "BitXor", "Index", "Into_Range", "JumpIfFalse"}
@@ -59,7 +59,7 @@ HeightsAfter(e, n) ==
 Binary == {"Add", "Sub", "Mul", "Pow", "Div", "Rem", "Eq", "Lt", "Gt", "Le", "Ge", "Shl", "Shr", "BitOr", "BitAnd", "BitXor",
            "Index", "Into_Range", "Assign", "Eq_PopOnce"}
 Unary == {"Drop", "SetVarImm", "SetGlobImm", "JumpIfFalse", "Neg", "Some", "Not", "Cast", "Member", "MemberAnyobj", "Unwrap",
-          "IntoIter", "IterAdvance", "Clone", "Duplicate", "Throw"}
+          "IntoIter", "IterAdvance", "Clone", "Detach", "Duplicate", "Throw"}
 Needs(e, n) ==
     IF e.op \in Binary THEN 2
     ELSE IF e.op \in Unary THEN 1
